@@ -483,6 +483,20 @@ class Stepper(Machine):
     def with_top(self, t: Thread, fr: Frame) -> Thread:
         return replace(t, frames=(*t.frames[:-1], fr))
 
+    def _guard_clause_raise(self, node: Node) -> bool:
+        """The branch starting at `node` is a straight line of at most three simple statements ending in an explicit `raise`."""
+        cur = node
+        for _ in range(4):
+            if cur.kind == "raise" and isinstance(cur.ast, ast.Raise):
+                return True
+            if cur.kind != "stmt" or not isinstance(cur.ast, (ast.Assign, ast.AnnAssign, ast.Expr)) or self.principal(cur) is not None and cur.kind != "stmt":
+                return False
+            nxt = [t for t, lab in cur.succ if lab != "exc"]
+            if len(nxt) != 1:
+                return False
+            cur = nxt[0]
+        return False
+
     def _exit_controlling_tests(self, fq: str) -> set[int]:
         """Test nodes of `fq` on which a break / continue / return / raise is control dependent (tests that only guard prints and the like do not matter)."""
         cache = self.__dict__.setdefault("_exit_tests", {})
@@ -923,6 +937,10 @@ class Stepper(Machine):
             for lab, want in (("true", True), ("false", False)):
                 if tv is None or tv is want:
                     tgt = self.succ(n, lab)
+                    if tgt is not None and tv is None and self._guard_clause_raise(tgt) and self.succ(n, "false" if lab == "true" else "true") is not None:
+                        # `if <something this model does not track>: raise ...` is input validation, not part of the protocol: the defensive branch is not explored
+                        # (a raise behind a condition the model *can* evaluate is followed as usual)
+                        continue
                     if tgt is not None:
                         st_b = st
                         if tv is None and who == "main" and self._in_cal_frame(t) and n.idx in self._exit_controlling_tests(t.frames[-1].fq):
